@@ -14,7 +14,10 @@
    actor document {"type":T, ...} (C06_json_single, C06_json_multi) and any subset of them - all five
    included - in one document, each as a single value or as a language map (C06_json_all_positions,
    Model/Text5.v); the harness fills all five at once on the real code and compares the five-position
-   writer and reader models with it (Cases_C06_five). *)
+   writer and reader models with it (Cases_C06_five).  Builder b50 (last block of this file): that five-position
+   writer and reader are PROVED to be the whole-value codec models JsonCodec.enc / JsonCodec.dec on every value of
+   the shape they describe (C06_text5_writer_is_enc*, C06_text5_reader_is_dec_generic, C06_json_all_positions_codec),
+   generic in the regenerated write / read tables under decidable conditions - source.content included. *)
 From AP.Model Require Import Prelude Nlv Text Text5.
 From AP.Proofs Require Import NlvP TextP Text5P.
 From AP.Model Require Vocab Layout JsonTables JsonCheck JsonDec JsonCodec Shape.
@@ -386,3 +389,216 @@ Proof.
   split; [vm_compute; reflexivity|]. split; [vm_compute; reflexivity|].
   split; [repeat constructor; vm_compute; discriminate|]. repeat split; vm_compute; reflexivity.
 Qed.
+
+(* ================================================================ b50: the five-position model IS the whole-value codec
+   Everything in the first block speaks about doc_encode5 / doc_decode5 (Model/Text5.v), a hand-written writer and
+   reader of the object { type, name, summary, content, source.content, preferredUsername }, tied to the Go writers by
+   the correspondence cases Cases_C06_five only.  The whole-value codec models are
+       JsonCodec.enc = marshal_json jw_tables      (Model/JsonEnc.v interpreted over Gen/JsonW.v, regenerated every run)
+       JsonCodec.dec = unmarshal_json jr_tables .. (Model/JsonDec.v over Gen/JsonR.v),
+   the models C01 / C02 / C05 are about.  This block proves the two the same thing on every five-position value:
+
+     WRITER  for every write table set satisfying the decidable condition kind5_w_ok (symbolic execution of the
+             MarshalJSON table of the struct kind on five-position values: delegations followed, statements on other
+             fields shown inert, the notEmpty flag tracked, Source.MarshalJSON included), every type name that needs no
+             escaping and ALL texts and tags - empty ones, repeated tags, bytes that are not UTF-8 included:
+                 marshal_json tbl x = Some (doc_encode5 (type of x) (texts of x))           byte for byte;
+     READER  for every read table set satisfying kind5_r_ok (every read entry of the kind either reads one of the six
+             members with the right getter into the right field, or looks for a name no five-position document holds;
+             the GetAPSource leaf table reads source.content as text) and every text in C06's domain:
+                 unmarshal_json tbl (doc_encode5 ty tx) = Some (Ok (IObj true k fs'))
+             where fs' holds the type and, at each of the five positions - source.content included - exactly what
+             doc_decode5 returns, and nothing else.
+
+   So C06_json_all_positions is a statement about enc / dec (C06_json_all_positions_codec).  The shape is a boolean
+   predicate on items (shape5 / codec5_dom of Model/Text5Enc.v), the conditions are evaluated on the tables of this
+   run, and tables edited the way source changes would edit them are rejected (C06_five_conditions_reject). *)
+From AP.Model Require JsonLeaf JsonEnc Text5Enc.
+From AP.Proofs Require NlvEncP Text5EncP Text5DecEncP Text5CodecP.
+From AP.Gen Require JsonW.
+Import Text5Enc.
+
+(* --- the two models of tagAsRead and of NaturalLanguageValues.MarshalJSON agree on EVERY input *)
+Theorem C06_tag_as_read_models_agree : forall s, JsonLeaf.sanitize s = tag_as_read s.
+Proof. exact NlvEncP.sanitize_tag. Qed.
+
+(* optb b = None for no bytes (nothing written), Some b otherwise *)
+Theorem C06_nlv_writer_models_agree : forall l : list (bytes * bytes), nlv_marshal l = NlvEncP.optb (JsonEnc.w_nlv l).
+Proof. exact NlvEncP.nlv_marshal_w_nlv. Qed.
+
+(* --- the table conditions on the tables of this run, first as diagnoses: what the symbolic execution of each
+   MarshalJSON table finds (members in order, "notEmpty surely set"), and which kinds read five-position documents *)
+Theorem C06_five_write_tables_found :
+  kind5_w_found JsonW.jw_tables Vocab.KActor
+    = Some ([A5Type; A5Nl PName; A5Nl PSummary; A5Nl PContent; A5Source; A5Nl PPreferredUsername], true) /\
+  kind5_w_found JsonW.jw_tables Vocab.KObject = Some ([A5Type; A5Nl PName; A5Nl PSummary; A5Nl PContent; A5Source], true) /\
+  src5_ok JsonW.jw_tables = true.
+Proof. vm_compute. repeat split; reflexivity. Qed.
+
+Definition c06_kinds_without_pu : list Vocab.kind :=
+  [Vocab.KObject; Vocab.KActivity; Vocab.KIntransitive; Vocab.KPlace; Vocab.KProfile; Vocab.KRelationship; Vocab.KTombstone].
+
+Theorem C06_five_write_condition :
+  kind5_w_ok JsonW.jw_tables Vocab.KActor true = true /\
+  forallb (fun k => kind5_w_ok JsonW.jw_tables k false) c06_kinds_without_pu = true.
+Proof. vm_compute. split; reflexivity. Qed.
+
+Theorem C06_five_read_condition :
+  kind5_r_ok JsonR.jr_tables Layout.layout_of Vocab.KActor true = true /\
+  forallb (fun k => kind5_r_ok JsonR.jr_tables Layout.layout_of k false) c06_kinds_without_pu = true /\
+  src5_r_ok JsonR.jr_tables = true.
+Proof. vm_compute. repeat split; reflexivity. Qed.
+
+(* --- WRITER, generic.  [view5 fs ty tx]: through getf, the field list holds the type ty, the texts tx at the five
+   positions (source with content only) and nothing else.  No hypothesis on the texts. *)
+Theorem C06_text5_writer_is_enc_generic : forall tbl k pu fs ty tx pt,
+  kind5_w_ok tbl k pu = true -> view5 fs ty tx -> plain_name ty -> ty <> [] ->
+  (pu = false -> tx PPreferredUsername = []) ->
+  JsonEnc.marshal_json tbl (Vocab.IObj pt k fs) = Some (doc_encode5 ty tx).
+Proof. exact Text5EncP.enc_is_doc_encode5. Qed.
+
+(* on items of the boolean shape, on the tables of this run *)
+Theorem C06_text5_writer_is_enc : forall x, shape5 JsonW.jw_tables x = true ->
+  match x with
+  | Vocab.IObj _ _ fs => JsonCodec.enc x = Some (doc_encode5 (ty5 fs) (tx5 fs))
+  | _ => False
+  end.
+Proof. exact (Text5EncP.enc_shape5 JsonW.jw_tables). Qed.
+
+(* --- READER, generic: the whole decoder on the five-position document, source.content included *)
+Theorem C06_text5_reader_is_dec_generic : forall jr lo reg sw acts actors links k pu ty tx,
+  kind5_r_ok jr lo k pu = true -> type5_selects reg sw acts actors ty k = true ->
+  plain_name ty -> ty <> [] -> (forall p, ok_text (tx p)) -> (pu = false -> tx PPreferredUsername = []) ->
+  exists fs', JsonDec.unmarshal_json jr lo reg sw acts actors links (doc_encode5 ty tx) = Some (Ok (Vocab.IObj true k fs')) /\
+              view5 fs' ty (fun p => norm_text (tx p)).
+Proof. exact Text5DecEncP.dec_doc5. Qed.
+
+(* --- BOTH, generic in all tables: on the domain codec5_dom the encoder writes the five-position document, the decoder
+   returns the struct whose type is the type and whose five positions hold what doc_decode5 reads (= the normal form
+   of what was written: C06_json_all_positions) - whatever the state of fastjson's key cache in the five-position reader *)
+Theorem C06_five_positions_codec_generic : forall jw jr lo reg sw acts actors links pt k fs,
+  codec5_dom jw jr lo reg sw acts actors (Vocab.IObj pt k fs) = true ->
+  JsonEnc.marshal_json jw (Vocab.IObj pt k fs) = Some (doc_encode5 (ty5 fs) (tx5 fs)) /\
+  exists fs',
+    JsonDec.unmarshal_json jr lo reg sw acts actors links (doc_encode5 (ty5 fs) (tx5 fs)) = Some (Ok (Vocab.IObj true k fs')) /\
+    view5 fs' (ty5 fs) (fun p => norm_text (tx5 fs p)) /\
+    ty5 fs' = ty5 fs /\
+    forall ku, exists rd, doc_decode5 ku (doc_encode5 (ty5 fs) (tx5 fs)) = Ok rd /\
+                          forall p, tx5 fs' p = rd p /\ rd p = norm_text (tx5 fs p).
+Proof. exact Text5CodecP.codec5. Qed.
+
+(* the domain on the tables of this run *)
+Definition c06_dom (x : Vocab.item) : bool :=
+  codec5_dom JsonW.jw_tables JsonR.jr_tables Layout.layout_of JsonCodec.registry JsonCodec.load_switch
+             TypeLists.tl_ActivityTypes TypeLists.tl_ActorTypes x.
+
+(* --- C06's JSON round trip as a statement about enc and dec: every value of the domain is encoded, the bytes decode
+   to a struct of the same kind and type whose five text positions hold the texts that were written, byte for byte -
+   a lone entry under the default language, maps entry for entry - and no other field is set *)
+Theorem C06_json_all_positions_codec : forall pt k fs, c06_dom (Vocab.IObj pt k fs) = true ->
+  exists b fs', JsonCodec.enc (Vocab.IObj pt k fs) = Some b /\ b = doc_encode5 (ty5 fs) (tx5 fs) /\
+                JsonCodec.dec b = Some (Ok (Vocab.IObj true k fs')) /\
+                ty5 fs' = ty5 fs /\ (forall p, tx5 fs' p = norm_text (tx5 fs p)) /\
+                (forall f, in5 f = false -> Vocab.getf f fs' = None).
+Proof.
+  intros pt k fs H.
+  destruct (Text5CodecP.codec5 JsonW.jw_tables JsonR.jr_tables Layout.layout_of JsonCodec.registry JsonCodec.load_switch
+              TypeLists.tl_ActivityTypes TypeLists.tl_ActorTypes TypeLists.tl_LinkTypes pt k fs H) as (He & fs' & Hd & Hv & Ht & Hrd).
+  exists (doc_encode5 (ty5 fs) (tx5 fs)), fs'. split; [exact He|]. split; [reflexivity|]. split; [exact Hd|]. split; [exact Ht|].
+  split.
+  - intros p. destruct (Hrd true) as (rd & _ & Hp). destruct (Hp p) as [E1 E2]. rewrite E1. exact E2.
+  - destruct Hv as (_ & _ & _ & Hu). exact Hu.
+Qed.
+
+(* --- non-vacuity.  The actor of C06_all_positions_example as an item: all five positions set, single values and maps
+   mixed, hostile texts; an Object (no preferredUsername) with source only; both are in the domain, and the model
+   computes the statement on them *)
+Definition c06_actor_item : Vocab.item := Vocab.IObj true Vocab.KActor (fields5 (B "Person") c06_five).
+Definition c06_note_item : Vocab.item :=
+  Vocab.IObj false Vocab.KObject
+    [(Vocab.F_Source, Vocab.FSource [] (Some [(B "en", B "*a* \ ""b"""); (B "fr", hx "c3a9e280a8")])); (Vocab.F_Type, Vocab.FStr (B "Note"))].
+Example C06_codec_domain_example :
+  c06_dom c06_actor_item = true /\ c06_dom c06_note_item = true /\
+  JsonCodec.enc c06_actor_item = Some (doc_encode5 (B "Person") c06_five) /\
+  match JsonCodec.dec (doc_encode5 (B "Person") c06_five) with
+  | Some (Ok (Vocab.IObj true Vocab.KActor fs')) => forallb (fun p => nl_eqb (tx5 fs' p) (norm_text (c06_five p))) all_pos
+  | _ => false
+  end = true /\
+  tx5 [(Vocab.F_Source, Vocab.FSource [] (Some [(B "en", B "x")]))] PSourceContent = [(B "en", B "x")].
+Proof. vm_compute. repeat split; reflexivity. Qed.
+
+(* the writer tie needs no hypothesis on the texts: a value outside C06's domain (a repeated tag, an empty text, an
+   empty tag, bytes that are not UTF-8) is still written byte for byte as the five-position writer writes it *)
+Definition c06_odd_item : Vocab.item :=
+  Vocab.IObj true Vocab.KActor
+    [(Vocab.F_Type, Vocab.FStr (B "Service"));
+     (Vocab.F_Name, Vocab.FNlv (Some [(B "en", B "a"); (B "en", B "b"); (B "fr", []); ([], B "c"); (hx "ff", hx "c328")]));
+     (Vocab.F_Summary, Vocab.FNlv (Some [(B "en", [])]));
+     (Vocab.F_Source, Vocab.FSource [] (Some [([], [])]));
+     (Vocab.F_PreferredUsername, Vocab.FNlv (Some [(hx "fe", hx "80")]))].
+Example C06_writer_all_texts_example :
+  shape5 JsonW.jw_tables c06_odd_item = true /\ c06_dom c06_odd_item = false /\
+  JsonCodec.enc c06_odd_item = Some (doc_encode5 (B "Service") (tx5 (match c06_odd_item with Vocab.IObj _ _ fs => fs | _ => [] end))) /\
+  JsonCodec.enc c06_odd_item = Some (B "{""type"":""Service"",""nameMap"":{""en"":""a"",""\ufffd"":""\ufffd(""},""preferredUsername"":""\ufffd""}").
+Proof. vm_compute. repeat split; reflexivity. Qed.
+
+(* what the shape excludes: another field (id), a type name that needs escaping, a Source with a media type, an Object
+   with preferredUsername, a Link (it has no summary / content / source) *)
+Example C06_shape_rejects :
+  shape5 JsonW.jw_tables (Vocab.IObj true Vocab.KActor [(Vocab.F_Type, Vocab.FStr (B "Person")); (Vocab.F_ID, Vocab.FStr (B "https://example.com/u"))]) = false /\
+  shape5 JsonW.jw_tables (Vocab.IObj true Vocab.KActor [(Vocab.F_Type, Vocab.FStr (B "Per""son"))]) = false /\
+  shape5 JsonW.jw_tables (Vocab.IObj true Vocab.KObject [(Vocab.F_Type, Vocab.FStr (B "Note")); (Vocab.F_Source, Vocab.FSource (B "text/plain") (Some [(B "en", B "x")]))]) = false /\
+  shape5 JsonW.jw_tables (Vocab.IObj true Vocab.KObject [(Vocab.F_Type, Vocab.FStr (B "Note")); (Vocab.F_PreferredUsername, Vocab.FNlv (Some [(B "en", B "x")]))]) = false /\
+  shape5 JsonW.jw_tables (Vocab.IObj true Vocab.KLink [(Vocab.F_Type, Vocab.FStr (B "Link"))]) = false.
+Proof. vm_compute. repeat split; reflexivity. Qed.
+
+(* --- the conditions are not vacuous: tables edited the way a source change would edit them are rejected *)
+Definition jw_edit (name : bytes) (f : JsonTables.wstmt -> list JsonTables.wstmt) (t : list (bytes * bool * list JsonTables.wstmt)) :=
+  map (fun r => let '(n, i, ss) := r in if bytes_eqb n name then (n, i, flat_map f ss) else r) t.
+Definition jr_edit (name : bytes) (f : JsonTables.rstmt -> list JsonTables.rstmt) (t : list (bytes * list JsonTables.rstmt)) :=
+  map (fun r => if bytes_eqb (fst r) name then (fst r, flat_map f (snd r)) else r) t.
+
+Example C06_five_conditions_reject :
+  (* summary written under another member name *)
+  kind5_w_ok (jw_edit (B "JSONWriteObjectValue")
+                (fun s => match s with
+                          | JsonTables.WProp t w p v g a pos => if bytes_eqb t (B "summary") then [JsonTables.WProp (B "abstract") w p v g a pos] else [s]
+                          | _ => [s] end) JsonW.jw_tables) Vocab.KActor true = false /\
+  (* content written before summary *)
+  kind5_w_found (jw_edit (B "JSONWriteObjectValue")
+                (fun s => match s with
+                          | JsonTables.WProp t w p v g a pos =>
+                              if bytes_eqb t (B "summary") then [] else if bytes_eqb t (B "content")
+                              then [s; JsonTables.WProp (B "summary") w [Vocab.F_Summary] v [JsonTables.GLenGt0 Vocab.F_Summary] a pos] else [s]
+                          | _ => [s] end) JsonW.jw_tables) Vocab.KObject
+    = Some ([A5Type; A5Nl PName; A5Nl PContent; A5Nl PSummary; A5Source], true) /\
+  (* the name statement assigning notEmpty instead of or-ing it (an empty map would reset the flag) *)
+  kind5_w_ok (jw_edit (B "JSONWriteObjectValue")
+                (fun s => match s with
+                          | JsonTables.WProp t w p v g _ pos => if bytes_eqb t (B "name") then [JsonTables.WProp t w p v g JsonTables.AccSet pos] else [s]
+                          | _ => [s] end) JsonW.jw_tables) Vocab.KObject false = false /\
+  (* Source.MarshalJSON losing its content statement *)
+  src5_ok (jw_edit (B "Source_MarshalJSON")
+                (fun s => match s with
+                          | JsonTables.WProp t _ _ _ _ _ _ => if bytes_eqb t (B "content") then [] else [s]
+                          | _ => [s] end) JsonW.jw_tables) = false /\
+  (* an always-written member added to the object (the document would hold a seventh member) *)
+  kind5_w_ok (jw_edit (B "JSONWriteObjectValue")
+                (fun s => match s with
+                          | JsonTables.WProp t _ _ _ _ _ pos =>
+                              if bytes_eqb t (B "type") then [s; JsonTables.WProp (B "sensitive") (B "JSONWriteBoolProp") [Vocab.F_Closed] (B "") [] JsonTables.AccOr pos] else [s]
+                          | _ => [s] end) JsonW.jw_tables) Vocab.KObject false = false /\
+  (* readers: GetAPSource reading source.contents; summary read into the content field; name read as an item *)
+  src5_r_ok (jr_edit (B "GetAPSource")
+                (fun s => match s with
+                          | JsonTables.RProp f t g c gd pos => if bytes_eqb t (B "source.content") then [JsonTables.RProp f (B "source.contents") g c gd pos] else [s]
+                          | _ => [s] end) JsonR.jr_tables) = false /\
+  kind5_r_ok (jr_edit (B "JSONLoadObject")
+                (fun s => match s with
+                          | JsonTables.RProp f t g c gd pos => if bytes_eqb t (B "summary") then [JsonTables.RProp Vocab.F_Content t g c gd pos] else [s]
+                          | _ => [s] end) JsonR.jr_tables) Layout.layout_of Vocab.KObject false = false /\
+  kind5_r_ok (jr_edit (B "JSONLoadObject")
+                (fun s => match s with
+                          | JsonTables.RProp f t g c gd pos => if bytes_eqb t (B "name") then [JsonTables.RProp f t (B "JSONGetItem") c gd pos] else [s]
+                          | _ => [s] end) JsonR.jr_tables) Layout.layout_of Vocab.KActor true = false.
+Proof. vm_compute. repeat split; reflexivity. Qed.
